@@ -4,11 +4,14 @@
    Proved: the algebraic laws any Fourier transform of a real density obeys, for the code's formula,
    for every vertex cycle; that each edge term IS the line integral of the plane wave along the edge
    (Coquelicot RInt); that the polygon amplitude is the sum of the amplitudes of its fan triangles.
-   NOT proved: the planar divergence theorem that turns the boundary integral into the area integral of
-   exp(-i q.r), and the polyhedron/sphere analogues; those are decided by correspondence with direct
-   quadrature of the defining integral. *)
+   For a TRIANGLE in the xy-plane and an in-plane q in generic position the formula is proved equal to the
+   Fourier integral of the indicator (C12_triangle_is_fourier_integral); with the fan decomposition this covers
+   polygons of any size up to the same modelled step as C04 (a simple polygon's integral = signed sum over its fan).
+   NOT proved: the degenerate directions (q perpendicular to an edge or to a chord: limits of the generic case), planes other
+   than xy (rigid-motion covariance), and the polyhedron/sphere analogues; those are decided by correspondence with
+   direct quadrature of the defining integral. *)
 From Coq Require Import Reals List.
-Require Import Cox.Num.Ops Cox.Geo.Vec Cox.Model.FormFactor Cox.Thm.FormFactorThm Cox.Thm.FormFactorIntegral.
+Require Import Cox.Num.Ops Cox.Geo.Vec Cox.Model.FormFactor Cox.Thm.FormFactorThm Cox.Thm.FormFactorIntegral Cox.Thm.TriangleFF.
 Local Open Scope R_scope.
 
 (* F(-q) is the complex conjugate of F(q) *)
@@ -63,3 +66,26 @@ Theorem C12_polygon_is_sum_of_fan_triangles :
   forall n q a b l, polygon_ff n q (a :: b :: l) = ff_fan n q a b l.
 Proof. exact ff_is_fan. Qed.
 Print Assumptions C12_polygon_is_sum_of_fan_triangles.
+
+
+(* THE FOURIER IDENTITY for a triangle: with the affine parametrisation r = a + u (b-a) + v (c-a) of the triangle over
+   the standard simplex (Jacobian J = (b-a) x (c-a), signed), the code's edge sum equals
+       J * int_0^1 int_0^(1-u) exp(-i q.r) dv du
+   - real part J*intint cos(q.r), imaginary part -J*intint sin(q.r) - for every triangle and every in-plane q with
+   q.(b-a), q.(c-a), q.(c-b) all non-zero. *)
+Theorem C12_triangle_is_fourier_integral :
+  forall a1 a2 b1 b2 c1 c2 q1 q2 : R,
+    let a : vec3 R := (a1, a2, 0) in let b : vec3 R := (b1, b2, 0) in let c : vec3 R := (c1, c2, 0) in
+    let q : vec3 R := (q1, q2, 0) in
+    let A := q1 * a1 + q2 * a2 in
+    let be := q1 * (b1 - a1) + q2 * (b2 - a2) in
+    let ga := q1 * (c1 - a1) + q2 * (c2 - a2) in
+    let J := (b1 - a1) * (c2 - a2) - (b2 - a2) * (c1 - a1) in
+    be <> 0 -> ga <> 0 -> be <> ga ->
+    polygon_ff (0, 0, 1) q (a :: b :: c :: nil)
+    = (J * @Coquelicot.RInt.RInt Coquelicot.Hierarchy.R_CompleteNormedModule
+             (fun u => @Coquelicot.RInt.RInt Coquelicot.Hierarchy.R_CompleteNormedModule (fun v => cos (A + u * be + v * ga)) 0 (1 - u)) 0 1,
+       - (J * @Coquelicot.RInt.RInt Coquelicot.Hierarchy.R_CompleteNormedModule
+             (fun u => @Coquelicot.RInt.RInt Coquelicot.Hierarchy.R_CompleteNormedModule (fun v => sin (A + u * be + v * ga)) 0 (1 - u)) 0 1)).
+Proof. exact triangle_ff_is_fourier. Qed.
+Print Assumptions C12_triangle_is_fourier_integral.
